@@ -7,6 +7,7 @@ import (
 
 	"github.com/hashicorp/hcl-lang/lang"
 	"github.com/hashicorp/hcl-lang/schema"
+	"github.com/hashicorp/hcl/v2/hclsyntax"
 	"github.com/zclconf/go-cty/cty"
 )
 
@@ -420,13 +421,8 @@ func (g *G) planBlock(bt string, bs *schema.BlockSchema, depth int) *BlockPlan {
 
 func validIdents(parts []string) bool {
 	for _, p := range parts {
-		if p == "" {
+		if !hclsyntax.ValidIdentifier(p) {
 			return false
-		}
-		for i, r := range p {
-			if !(r == '_' || r == '-' && i > 0 || r >= '0' && r <= '9' && i > 0 || r >= 'a' && r <= 'z' || r >= 'A' && r <= 'Z' || r > 127) {
-				return false
-			}
 		}
 	}
 	return true
